@@ -228,7 +228,7 @@ def check_cache(rep, db, f, inst, fillers):
             fillers.setdefault((db.label, mapname), []).append((q.short(e.a), f["loc"]))
             res = (e.extra or {}).get("ret")
             sub = [(j, x) for j, x in enumerate(evs) if x.kind == "CALL" and q.short(x.a) in ("operator[]", "insert_or_assign", "emplace", "insert") and x.c == finds[0][1].c and j > i]
-            locks = [j for j, x in enumerate(evs) if x.kind == "CALL" and q.short(x.a) == "unique_lock" and j > i]
+            locks = [j for j, x in enumerate(evs) if x.kind == "CALL" and q.short(x.a) in q.EXCLUSIVE_GUARDS and j > i]
             if len(sub) != 1 or not key_is_name(sub[0][1].b[0]) or not locks or locks[0] > sub[0][0]:
                 rep.violation("R-C11-cache", site(f), "the result is not stored under the looked-up name inside the unique guard", f["loc"], inst)
                 return
